@@ -419,6 +419,61 @@ def r17_float_casts(b):
             return
 
 
+def r21_vec_macro(b):
+    """the expansion of `vec![a, b, ..]` (std's box_assume_init_into_vec_unsafe(write_box_via_move(Box::new_uninit(), [..])))
+    ->  vec_from_array([..])"""
+    pat = [t.text for t in tokenize("::alloc::boxed::box_assume_init_into_vec_unsafe(::alloc::intrinsics::write_box_via_move(::alloc::boxed::Box::new_uninit(),")]
+    while True:
+        toks = b.toks()
+        hits = _find_seq(toks, pat)
+        if not hits:
+            return
+        h = hits[0]
+        outer_open = h + [t.text for t in toks[h:]].index("(")
+        outer_close = match_close(toks, outer_open)
+        arr_open = h + len(pat)
+        if toks[arr_open].text != "[":
+            raise ExtractError("unsupported construct: vec! expansion without an array literal")
+        arr_close = match_close(toks, arr_open)
+        arr = b.text[toks[arr_open].start:toks[arr_close].end]
+        b.edit([(toks[h].start, toks[outer_close].end, f"vec_from_array({arr})")], "R21")
+
+
+def r20_for_iter(b):
+    """for P in E { BODY }  with E an iterator expression (not a range)  ->  let mut __forK = E; while let Some(P) = __forK.next() { BODY }
+    (then R15).  `for i in a..b` is left alone: Verus handles ranges natively."""
+    k = 0
+    while True:
+        toks = b.toks()
+        done = True
+        for i, t in enumerate(toks):
+            if t.kind == "id" and t.text == "for" and (i == 0 or toks[i - 1].text not in (".", "::")) and toks[i + 1].text != "<":
+                # pattern up to the top-level `in`
+                j = i + 1
+                while toks[j].text != "in":
+                    if toks[j].text in ("(", "["):
+                        j = match_close(toks, j)
+                    j += 1
+                e0 = j + 1
+                m = e0
+                is_range = False
+                while toks[m].text != "{":
+                    if toks[m].text in ("(", "["):
+                        m = match_close(toks, m)
+                    m += 1
+                is_range = any(x.text in ("..", "..=") for x in toks[e0:m])
+                if is_range:
+                    continue
+                k += 1
+                pat = b.text[toks[i + 1].start:toks[j].start].strip()
+                expr = b.text[toks[e0].start:toks[m].start].strip()
+                b.edit([(t.start, toks[m].end, f"let mut __for{k} = {expr}; while let Some({pat}) = __for{k}.next() {{")], "R20")
+                done = False
+                break
+        if done:
+            return
+
+
 def r15_while_let(b):
     """while let Some(P) = E { BODY }  ->  loop { let __wl = E; if __wl.is_none() { break; } let P = __wl.unwrap(); BODY }"""
     while True:
@@ -906,6 +961,7 @@ def emit_fn(unit, blk, rel):
         r10_self(body)
     if blk.strip_turbofish is not None:
         r2_turbofish(body, blk.strip_turbofish or None)
+    r21_vec_macro(body)
     # R12: the std / tevec iterator constructors are always mapped to the A-ITER model functions
     default_r12 = [("std::iter::repeat_n", "repeat_n"), ("std::iter::repeat", "repeat"), ("TrustIter::new", "trust_iter_new")]
     for (frm, to) in blk.replaces + [d for d in default_r12 if d[0] not in [r[0] for r in blk.replaces]]:
@@ -916,6 +972,8 @@ def emit_fn(unit, blk, rel):
             continue   # a declared substitution that does not occur changes nothing; Verus will reject any leftover it cannot resolve
         body.edit([(toks_b[h].start, toks_b[h + len(pat) - 1].end, to) for h in hits], "R12")
     r3_types(body, blk.types)
+    r6_enumerate(body)
+    r20_for_iter(body)
     r15_while_let(body)
     r19_match_str(body)
     r6_enumerate(body)
